@@ -30,7 +30,7 @@ def cases(tier, seed):
     r = random.Random(seed)
     cs = []
     ciphers = list(encwork.CIPHERS)
-    bodies = ['empty', 'one', 'text', 'ascii', 'binary', 'zeros', '64k']
+    bodies = ['empty', 'one', 'text', 'ascii', 'binary', 'zeros', '64k', 'far']
     rc = encwork.RECIPIENTS
     # A1: cipher x recipient kind (single recipient), rotating body/compression
     i = 0
@@ -92,6 +92,11 @@ def cases(tier, seed):
             cs.append({'d': 'B', 'cipher': c, 'rcpt': rn, 'body': bodies[i % len(bodies)], 'comp': [0, 1, 2, 3][i % 4], 'level': [1, 6, 9][i % 3],
                        'framing': ['new', 'old', 'partial'][i % 3], 'sed': i % 7 == 3, 'lit_framing': ['new', 'old'][i % 2]})
             i += 1
+    # a body whose repeats lie far back, under every compression algorithm and level, from another producer
+    for j, comp in enumerate((1, 2, 3)):
+        for level in (1, 6, 9):
+            cs.append({'d': 'B', 'cipher': ciphers[(j * 3 + level) % len(ciphers)], 'rcpt': ['cv25519_0', 'pass3', 'rsa1024_1'][j], 'body': 'far', 'comp': comp, 'level': level,
+                       'framing': ['new', 'partial'][level % 2], 'sed': False, 'lit_framing': 'new'})
     cs.append({'d': 'B2'})
     for i in range(4 if tier == 'quick' else 40):
         cs.append({'d': 'R', 'i': i, 'seed': seed})
